@@ -914,6 +914,55 @@ theorem locals_audited_partial (F : Facts) (h : localsOk F = true) :
   rw [List.all_eq_true] at h
   exact h
 
+/-! ## clause 2a for locals: reads of locals that are certainly unbound
+
+"never with NameError": `UnboundLocalError` is a `NameError`.  The facts list every read of a local
+that is unbound on every path reaching it (after `except … as`, after `del`, before any binding). -/
+
+/-- **No function fails with an `UnboundLocalError` that the facts know** (for all fact lists): when
+`deadLoadsOk` holds, no function of any module has a certainly-unbound read, and the list of
+`NameError`s they stand for is empty — and conversely. -/
+theorem dead_loads_ok_iff (D : List DeadLoad) :
+    deadLoadsOk D = true ↔ ∀ m fn, deadLoadsOf D m fn = [] := by
+  constructor
+  · intro h m fn
+    cases D with
+    | nil => rfl
+    | cons d t => simp [deadLoadsOk] at h
+  · intro h
+    cases D with
+    | nil => rfl
+    | cons d t =>
+      have := h d.mod d.fn
+      simp [deadLoadsOf, List.filter] at this
+
+/-- a certainly-unbound read is a `NameError` of its function: every listed read is reported, and
+every reported `NameError` comes from a listed read of that function -/
+theorem local_name_errors_exact (D : List DeadLoad) (m : ModId) (fn var : Name) :
+    Err.nameError m (some fn) var ∈ localNameErrors D ↔ ∃ d ∈ deadLoadsOf D m fn, d.var = var := by
+  simp only [localNameErrors, deadLoadsOf, List.mem_map, List.mem_filter, Bool.and_eq_true, beq_iff_eq,
+    Err.nameError.injEq, Option.some.injEq]
+  constructor
+  · rintro ⟨d, hd, h1, h2, h3⟩
+    exact ⟨d, ⟨hd, h1, h2⟩, h3⟩
+  · rintro ⟨d, ⟨hd, h1, h2⟩, h3⟩
+    exact ⟨d, hd, h1, h2, h3⟩
+
+/-- when `deadLoadsOk` holds no `NameError` comes from a local -/
+theorem no_local_name_error (D : List DeadLoad) (h : deadLoadsOk D = true) (e : Err) :
+    e ∉ localNameErrors D := by
+  cases D with
+  | nil => simp [localNameErrors]
+  | cons d t => simp [deadLoadsOk] at h
+
+/-- non-vacuity: the handler name read after its `except … as` clause (module 3, function 7, variable 9)
+is found, attributed to its function only, and makes `deadLoadsOk` false -/
+example :
+    let D : List DeadLoad := [⟨3, 7, 9, 132, 0⟩, ⟨3, 8, 10, 140, 1⟩]
+    (deadLoadsOk D = false) ∧ (deadLoadsOk [] = true) ∧ deadLoadsOf D 3 7 = [⟨3, 7, 9, 132, 0⟩] ∧
+    deadLoadsOf D 3 6 = [] ∧ Err.nameError 3 (some 7) 9 ∈ localNameErrors D := by
+  decide
+
 /-! ## clauses that the facts cannot express: full statements, kept as `_full`
 
 The interpreter of this file has no notion of the *behaviour* of an element (what a call returns
